@@ -116,12 +116,21 @@ def check(case):
     lx_prev = ly_prev = None
     ncomp = 0
     rankX = None
+    # ONE user-supplied regressor object is shared by the whole walk and was handed before to another
+    # PCovR fitted on other data of the same shape (it must stay the caller's unfitted object)
+    shared = pcov.make_regressor(spec)
+    if shared is not None:
+        Xo = pcov.center(X[::-1, ::-1] * 0.75 + 0.5)
+        _, exc0 = pcov.fit_pcovr(Xo, Y[::-1] * -0.5, 0.5, k, spec, space, "full", regressor_obj=shared)
+        r.transitions += 1
+        if exc0 is not None:
+            return r.fail("crash:%s" % type(exc0).__name__, "fit with the shared regressor on other data: %r" % exc0)
     for mixing in GRID:
         ref = pcov.Ref(X, Y, mixing, spec)
         rankX = ref.rankX
         if ref.condX > 2e3:
             return r.skip("X ill conditioned on its non-zero spectrum")
-        est, exc = pcov.fit_pcovr(X, Y, mixing, k, spec, space, "full")
+        est, exc = pcov.fit_pcovr(X, Y, mixing, k, spec, space, "full", regressor_obj=shared)
         r.transitions += 1
         if exc is not None:
             r.fail("crash:%s" % type(exc).__name__, "mixing=%g: %r" % (mixing, exc))
